@@ -1,11 +1,67 @@
 import PT.Lemmas.Inv
 import PT.Lemmas.Order
+import PT.Lemmas.Children
 /-!
 # Operation alphabet, reachable states, and facts about the fold-defined operations
 -/
 namespace PMap
 variable {w : Nat} {V : Type}
 open Tree Pfx
+
+/-! ### `remove_children` -/
+
+theorem removeChildren_eq_of_len_ne {m : PMap w V} {q : Pfx w} (hq : q.len ≠ 0) :
+    m.removeChildren q = match m.root.rmChildren q with
+      | .done t rem => ⟨t, m.free ++ rem.freeOrder, m.alloc, m.count - rem.entries.length⟩
+      | _ => m := by
+  unfold removeChildren; simp only [hq, ite_false]; cases m.root.rmChildren q <;> rfl
+
+theorem removeChildren_inv {m : PMap w V} (h : m.Inv) (q : Pfx w) : (m.removeChildren q).Inv := by
+  by_cases hq : q.len = 0
+  · unfold removeChildren; simp only [hq, ite_true]; exact clear_inv m
+  · rw [removeChildren_eq_of_len_ne hq]
+    cases hr : m.root.rmChildren q with
+    | notFound => exact h
+    | here => exact h
+    | done t rem =>
+      obtain ⟨p, v, l, r, hroot, hp⟩ := h.tree.root
+      have hspec := (rmChildren_spec h.tree.wf (h.tree.rootCovers q)).2 t rem hr
+      have hcnt := rmChildren_counts m.root q t rem hr
+      obtain ⟨l', r', ht⟩ : ∃ l' r', t = .node 0 p v l' r' := by
+        rw [hroot] at hr; exact rmChildren_root 0 p v l r q t rem hr
+      refine ⟨⟨⟨p, v, l', r', ht, hp⟩, hspec.1⟩, ?_, fun a ha => ?_, fun a ha => ?_⟩
+      · show m.count - rem.entries.length = t.card
+        rw [h.count, hcnt.1]; unfold Tree.card; omega
+      · have := h.slots_lt a ha
+        simp only [List.count_append, freeOrder_count] at this ⊢
+        rw [hcnt.2 a] at this; omega
+      · have := h.slots_ge a ha
+        simp only [List.count_append, freeOrder_count] at this ⊢
+        rw [hcnt.2 a] at this; omega
+
+/-- `remove_children(q)` removes exactly the entries covered by `q` (itself included) and leaves
+all others with their representation and value; a zero-length prefix empties the map -/
+theorem removeChildren_mem {m : PMap w V} (h : m.TreeWF) (q : Pfx w) (e : Pfx w × V) :
+    e ∈ (m.removeChildren q).entries ↔ e ∈ m.entries ∧ ¬ q.net <+: e.1.net := by
+  by_cases hq : q.len = 0
+  · unfold removeChildren; simp only [hq, ite_true]
+    have : q.net = [] := by
+      have := Pfx.net_length q; rw [hq] at this; exact List.length_eq_zero_iff.1 this
+    simp [clear, empty_entries, this]
+  · rw [removeChildren_eq_of_len_ne hq]
+    have hspec := rmChildren_spec h.wf (h.rootCovers q)
+    cases hr : m.root.rmChildren q with
+    | notFound =>
+      constructor
+      · intro he; exact ⟨he, hspec.1 hr e he⟩
+      · intro he; exact he.1
+    | here =>
+      obtain ⟨s, p, v, l, r, hroot, hpq⟩ := rmChildren_here hr
+      have := h.root_pfx p (by rw [hroot]; rfl)
+      rw [hpq] at this
+      have hl := Pfx.net_length q
+      rw [this] at hl; simp at hl; exact absurd hl.symm hq
+    | done t rem => exact (hspec.2 t rem hr).2.1 e
 
 /-- the mutator alphabet covered by the invariant theorems (value-only writes are `modify`;
 `Entry::insert` = `insert`; `or_insert*`, `VacantEntry::insert*` = `orInsert`;
@@ -16,6 +72,7 @@ inductive Op (w : Nat) (V : Type) where
   | modify (q : Pfx w) (f : V → V)
   | remove (q : Pfx w)
   | removeKeepTree (q : Pfx w)
+  | removeChildren (q : Pfx w)
   | retain (f : Pfx w → V → Bool) (stop : Option Nat)
   | clear
   | collect (xs : List (Pfx w × V))
@@ -26,6 +83,7 @@ def Op.apply (m : PMap w V) : Op w V → PMap w V
   | .modify q f => m.modify q f
   | .remove q => (m.remove q).1
   | .removeKeepTree q => (m.removeKeepTree q).1
+  | .removeChildren q => m.removeChildren q
   | .retain f stop => m.retain f stop
   | .clear => m.clear
   | .collect xs => PMap.collect xs
@@ -40,6 +98,7 @@ theorem apply_inv {m : PMap w V} (h : m.Inv) (op : Op w V) : (op.apply m).Inv :=
   | modify q f => exact modify_inv h q f
   | remove q => exact remove_inv h q
   | removeKeepTree q => exact removeKeepTree_inv h q
+  | removeChildren q => exact removeChildren_inv h q
   | retain f stop => exact retain_inv h f stop
   | clear => exact clear_inv m
   | collect xs => exact collect_inv xs
